@@ -11,7 +11,7 @@ RULE = (
     "positions), 1-4 declared fields, IsUnique key sets of 1-3 fields, DistinctCount with each of < <= == != >= > and "
     "thresholds 0-4 (a quarter of them with one or two more comparisons of the field joined by and / or), both declaration orders of the two checks, the three error modes, interleaved rows rejected for a "
     "field error or a wrong item count; thorough additionally enumerates all sequences of up to 5 rows over 5 row kinds. "
-    "Every third case creates the readers of its three runs (one per error mode) up front on one CID and reads them one after the other. Observed through cutplace.Reader (rows, close, error.location, see_also_location; every second raise-mode run through cutplace.rows instead) and compared with M-checks. A "
+    "Every third case creates the readers of its three runs (one per error mode) up front on one CID and reads them one after the other. Observed through cutplace.Reader (rows, close, error.location, see_also_location; every second raise-mode run through cutplace.rows instead; a sixth of the cases judge the second run of a Reader that was read and closed before) and compared with M-checks. A "
     "case is (check configuration, row sequence, mode), distinct by digest, non-trivial when a duplicate key occurs or "
     "the distinct count is within 1 of the threshold."
 )
@@ -95,11 +95,12 @@ def readers_up_front(model, rows):
     return cid, {mode: validio.Reader(cid, io.StringIO(storage.delimited_text(rows), newline=""), on_error=mode) for mode in MODES}
 
 
-def check_case(ctx, model, rows, mode, up_front=None, through_rows=False):
+def check_case(ctx, model, rows, mode, up_front=None, through_rows=False, read_twice=False):
     from cutplace import errors
 
     through_rows = through_rows and mode == "raise" and up_front is None
-    case = {"cid": model.to_json(), "rows": rows, "mode": mode, "readers_created_up_front": up_front is not None, "through_cutplace_rows": through_rows}
+    read_twice = read_twice and not through_rows and up_front is None
+    case = {"cid": model.to_json(), "rows": rows, "mode": mode, "readers_created_up_front": up_front is not None, "through_cutplace_rows": through_rows, "read_twice": read_twice}
     expected = RM.expected_run(model, rows)
     strict = False
     if expected is None:
@@ -130,6 +131,16 @@ def check_case(ctx, model, rows, mode, up_front=None, through_rows=False):
             ctx.count("runs.through-cutplace.rows")
             if not any(e[0] == "error" for e in expected["items"]):
                 obs.end_error, obs.raised = obs.raised, None
+        elif read_twice:
+            # one Reader, read and closed, then read and closed again (plain close(), no with block): the second run is
+            # a run of its own and the one that is judged
+            from cutplace import validio
+
+            reader = validio.Reader(cid, source, on_error=mode)
+            gen.read_with_reader(cid, source, mode=mode, reader=reader)
+            source.seek(0)
+            obs = gen.read_with_reader(cid, source, mode=mode, reader=reader)
+            ctx.count("runs.second-run-of-one-reader")
         else:
             obs = gen.read_with_reader(cid, source, mode=mode, reader=up_front[1][mode] if up_front is not None else None)
     except Exception as error:
@@ -256,7 +267,7 @@ def run(ctx):
             except Exception:
                 up_front = None  # a refused CID is reported by check_case
         for mode in MODES:
-            check_case(ctx, model, rows, mode, up_front, through_rows=(i % 2 == 1))
+            check_case(ctx, model, rows, mode, up_front, through_rows=(i % 2 == 1), read_twice=(i % 6 == 2))
     if ctx.tier == "thorough":
         kinds = [["a", "a"], ["a", "b"], ["b", "a"], ["b", "b"], ["a", "BAD"]]
         fields = [{"name": "k0", "type": "Choice", "empty": False, "length": "", "rule": "a, b"},
@@ -285,4 +296,4 @@ def replay(ctx, case):
         for mode in MODES:
             check_case(ctx, model, case["rows"], mode, up_front)
         return
-    check_case(ctx, model, case["rows"], case["mode"], through_rows=case.get("through_cutplace_rows", False))
+    check_case(ctx, model, case["rows"], case["mode"], through_rows=case.get("through_cutplace_rows", False), read_twice=case.get("read_twice", False))
